@@ -12,6 +12,7 @@
 #include <cstring>
 #include <exception>
 #include <fstream>
+#include <map>
 #include <set>
 #include <sstream>
 #include <string>
@@ -69,6 +70,7 @@ struct Stats {
   uint64_t compared = 0, nontrivial = 0, exec_true = 0, exec_false = 0, cex = 0;
   uint64_t switches = 0, lib_preempt = 0, runs_two_preempted = 0, static_checks = 0, static_rebaselined = 0, yields_cb = 0, colocated = 0;
   std::set<uint64_t> keys;                     // distinct-nontrivial measure
+  std::map<std::string, uint64_t> by_kind;     // fault executions per operation kind (entry point)
   uint64_t digest = 0;                         // digest of everything the run's operations returned (+ interleaving log for C14)
 };
 
@@ -125,6 +127,7 @@ static bool c10_fault_run(const Plan& pl, const RunOut& base, int op, int64_t k,
     return true;
   };
   if (!f.fault_fired || !r) return fail("harness-fault-not-reached", "the fault index was not reached although the baseline counted it (nondeterministic allocation sequence)");
+  ++st.by_kind[opkind];
   if (f.fault_guard) { ++st.fault_fired_in_lib; st.keys.insert(mix64(tag64(opkind), ((uint64_t)kind << 32) | f.fault_guard)); }
   if (kind == 0) {
     if (r->outcome == 0 || r->outcome == 4) return fail("swallowed-bad_alloc", "an allocation failed with std::bad_alloc inside the operation but the operation returned normally");
@@ -453,6 +456,7 @@ int main(int argc, char** argv) {
       st.evals += one.evals; st.steps += one.steps; st.fault_runs += one.fault_runs; st.nothrow_fault_runs += one.nothrow_fault_runs; st.fault_fired_in_lib += one.fault_fired_in_lib;
       st.leaked_after_fault += one.leaked_after_fault; st.twin_runs += one.twin_runs; st.compared += one.compared; st.nontrivial += one.nontrivial; st.cex += one.cex; st.switches += one.switches;
       st.lib_preempt += one.lib_preempt; st.runs_two_preempted += one.runs_two_preempted; st.static_checks += one.static_checks; st.static_rebaselined += one.static_rebaselined; st.yields_cb += one.yields_cb; st.colocated += one.colocated;
+      for (auto& kv : one.by_kind) st.by_kind[kv.first] += kv.second;
       for (uint64_t k : one.keys) if (st.keys.insert(k).second && keysf) fwrite(&k, 8, 1, keysf);
       if (keysf) fflush(keysf);
       // one report per coarse signature (incidental attributes dropped), so that frequent variants of one defect
@@ -477,7 +481,9 @@ int main(int argc, char** argv) {
     { std::ofstream f(outdir + "/w" + wid + ".hits", std::ios::binary); uint32_t n = rt_num_guards(); const unsigned char* h = rt_guard_hits();
       for (uint32_t g = 1; g <= n; ++g) if (h[g]) { uint64_t pc = rt_guard_pc(g); f.write((const char*)&pc, 8); } }
     write_file(outdir + "/w" + wid + ".samples", samples);
-    printf("DONE runs=%" PRIu64 " ", done); print_stats(stdout, st); printf(" guards=%u static_bytes=%zu\n", rt_num_guards(), rt_static_bytes()); fflush(stdout);
+    printf("DONE runs=%" PRIu64 " ", done); print_stats(stdout, st); printf(" guards=%u static_bytes=%zu", rt_num_guards(), rt_static_bytes());
+    for (auto& kv : st.by_kind) printf(" fk:%s=%" PRIu64, kv.first.c_str(), kv.second);
+    printf("\n"); fflush(stdout);
     return 0;
   }
   fprintf(stderr, "bad command line\n");
